@@ -496,3 +496,38 @@ def check_calls_during_merge(res, ctx, idx_types):
                 continue
             if o.get("live") != o.get("restart") or o.get("restart") != o.get("restart2"):
                 res.violation("%s: live %s, restart %s, second restart %s" % (name, o.get("live"), o.get("restart"), o.get("restart2")), replay)
+
+
+def check_batch_visibility(res, ctx, combos):
+    """what OTHER goroutines observe while a batch is open (xkv batchvis): a batch is one atomic multi-key write at its Commit;
+    its early flushes (records in the log, index already updated) must not be observable before the Commit, and no reader may
+    return a value that no committed state ever held (Model/ConcBatch.lean: C08B_linearizable, C05_partial_flush_unobservable)."""
+    import subprocess
+    for idx, io in combos:
+        base = ctx.scratch.fresh()
+        try:
+            r = subprocess.run([core.XKV, "batchvis", base, str(idx), str(io)], capture_output=True, text=True, timeout=120)
+        except subprocess.TimeoutExpired:
+            res.violation("open-batch visibility scenarios (index %d, io %d): timeout (a reader deadlocked?)" % (idx, io),
+                          {"cmd": "xkv batchvis <dir> %d %d" % (idx, io)})
+            continue
+        finally:
+            ctx.scratch.drop(base)
+        recs = []
+        for line in r.stdout.split("\n"):
+            if line.startswith("{"):
+                try:
+                    recs.append(json.loads(line))
+                except ValueError:
+                    pass
+        if r.returncode != 0 or len(recs) < 4 or any("error" in x for x in recs):
+            res.violation("open-batch visibility scenarios (index %d, io %d) did not run: %s" % (idx, io, (r.stdout + r.stderr)[-300:]),
+                          {"cmd": "xkv batchvis <dir> %d %d" % (idx, io)})
+            continue
+        for x in recs:
+            res.evaluations += 1
+            res.count("batch_visibility_scenarios")
+            res.distinct.add("bv:%d:%d:%s:%s" % (idx, io, x["scenario"][:1], json.dumps(x["observations"], sort_keys=True)))
+            for v in x.get("violations") or []:
+                res.violation("while a batch is open (index %d, io %d; scenario %s): %s" % (idx, io, x["scenario"], v),
+                              {"cmd": "xkv batchvis <dir> %d %d" % (idx, io), "scenario": x["scenario"], "observations": x["observations"]})
